@@ -12,6 +12,7 @@
 package mcp
 
 import (
+	"encoding/json"
 	"bytes"
 	"context"
 	"errors"
@@ -498,6 +499,44 @@ func (w *wireWorld) apply3(kind string, p *tokStream, op string) string {
 			return o
 		}
 		return "x" + hx(b) + " " + o
+	case "ref.rt":
+		t, ok1 := p.str()
+		n, ok2 := p.str()
+		u, ok3 := p.str()
+		if !ok1 || !ok2 || !ok3 {
+			return "bad-op"
+		}
+		data, err := json.Marshal(&CompleteReference{Type: t, Name: n, URI: u})
+		if err != nil {
+			return "refused " + refErrTok(err)
+		}
+		v, perr := parseJSON(data)
+		if perr != nil {
+			return "unparsable"
+		}
+		var back CompleteReference
+		if err := json.Unmarshal(data, &back); err != nil {
+			return "ok " + v.tok() + " | err " + refErrTok(err)
+		}
+		return "ok " + v.tok() + " | " + refTok(back)
+	case "ref.dec":
+		v, ok := p.jv()
+		if !ok {
+			return "bad-op"
+		}
+		var r CompleteReference
+		if err := json.Unmarshal([]byte(v.text()), &r); err != nil {
+			return "err " + refErrTok(err)
+		}
+		data, err := json.Marshal(&r)
+		if err != nil {
+			return refTok(r) + " | refused " + refErrTok(err)
+		}
+		w, perr := parseJSON(data)
+		if perr != nil {
+			return "unparsable"
+		}
+		return refTok(r) + " | " + w.tok()
 	case "r.pg.new":
 		var ps int
 		if _, err := fmt.Sscanf(p.next(), "%d", &ps); err != nil || ps < 1 {
@@ -561,6 +600,68 @@ func (w *wireWorld) apply3(kind string, p *tokStream, op string) string {
 		return guarded(15*time.Second, func() string { return w.pg.list(method, cursor) })
 	}
 	return "bad-op"
+}
+
+// ------------------------------------------------------------------ the CompleteReference codec
+
+func refTok(r CompleteReference) string {
+	return fmt.Sprintf("ok s%s s%s s%s", hxs(r.Type), hxs(r.Name), hxs(r.URI))
+}
+
+func refErrTok(err error) string {
+	m := err.Error()
+	switch {
+	case strings.Contains(m, "must not have a URI"):
+		return "prompt-with-uri"
+	case strings.Contains(m, "must not have a Name"):
+		return "resource-with-name"
+	case strings.Contains(m, "unrecognized"):
+		return "unknown-type"
+	}
+	return "other"
+}
+
+var (
+	refTypes = []string{"ref/prompt", "ref/resource", "ref/prompt", "ref/resource", "", "ref/tool", "REF/PROMPT", "ref/prompt ", "prompt"}
+	refNames = []string{"", "", "p", "greet", "é", "a b", "file:///x"}
+	refURIs  = []string{"", "", "file:///x", "file:///t/{id}", "u", "p"}
+)
+
+// genRefJSON: a JSON value offered to CompleteReference.UnmarshalJSON: mostly objects with type / name / uri
+// members that are strings, null, absent or of another type, in any order, with unknown members and
+// members whose names differ in case only; sometimes no object at all.
+func genRefJSON(r *rand.Rand) (jv, []string) {
+	if r.Intn(12) == 0 {
+		return []jv{jNull(), jArr(), jStr("ref/prompt"), jInt(1), jBool(true)}[r.Intn(5)], []string{"ref:no-object"}
+	}
+	var mem []jmem
+	tags := []string{}
+	put := func(k string, vals []string) {
+		switch c := r.Intn(12); {
+		case c < 7:
+			mem = append(mem, jmem{k, jStr(vals[r.Intn(len(vals))])})
+		case c < 9: // absent
+		case c < 10:
+			mem = append(mem, jmem{k, jNull()})
+			tags = append(tags, "ref:null-member")
+		case c < 11:
+			mem = append(mem, jmem{k, []jv{jInt(1), jBool(false), jArr(), jObj()}[r.Intn(4)]})
+			tags = append(tags, "ref:mistyped-member")
+		default:
+			if f, ok := flipCase(k); ok {
+				mem = append(mem, jmem{f, jStr(vals[r.Intn(len(vals))])})
+				tags = append(tags, "ref:case-variant")
+			}
+		}
+	}
+	put("type", refTypes)
+	put("name", refNames)
+	put("uri", refURIs)
+	if r.Intn(4) == 0 {
+		mem = append(mem, jmem{"x-unknown", genJ(r, 1)})
+	}
+	r.Shuffle(len(mem), func(i, j int) { mem[i], mem[j] = mem[j], mem[i] })
+	return jObj(mem...), tags
 }
 
 // ------------------------------------------------------------------ generators: foreign event streams
